@@ -403,6 +403,37 @@ func (vc *VC) exec(st *State, s ast.Stmt) []Outcome {
 		vc.evalExpr(st, x.Value)
 		vc.dropped["channel send at "+vc.w.pos(x.Pos())] = true
 		return []Outcome{{kind: oNormal, st: st}}
+	case *ast.SelectStmt:
+		// sequential model of select: any one of the cases may be taken (sends have no effect here, a receive
+		// yields an arbitrary value); an unlabelled break leaves the select
+		vc.dropped["select at "+vc.w.pos(x.Pos())+" (any case may be taken)"] = true
+		var outs []Outcome
+		for _, cc := range x.Body.List {
+			cl := cc.(*ast.CommClause)
+			cs := st.clone()
+			var pre []Outcome
+			if cl.Comm != nil {
+				pre = vc.exec(cs, cl.Comm)
+			} else {
+				pre = []Outcome{{kind: oNormal, st: cs}}
+			}
+			for _, p := range pre {
+				if p.kind != oNormal {
+					outs = append(outs, p)
+					continue
+				}
+				for _, o := range vc.execBlock(p.st, cl.Body) {
+					if o.kind == oBreak && o.label == "" {
+						o.kind = oNormal
+					}
+					outs = append(outs, o)
+				}
+			}
+		}
+		if len(outs) == 0 {
+			outs = []Outcome{{kind: oNormal, st: st}}
+		}
+		return outs
 	}
 	vc.unsupported(s, "statement %T", s)
 	return nil
@@ -1040,9 +1071,31 @@ func (vc *VC) havocAllHeap(st *State) {
 			ghost[comp] = vc.heapGet(st, comp, vc.compSort[comp])
 		}
 	}
+	// backing arrays of local slices that have not escaped yet (see confined) keep their contents
+	type keptRow struct{ comp, sort, arr, old string }
+	var kept []keptRow
+	for obj, v := range st.env {
+		lv, ok := obj.(*types.Var)
+		if !ok || v == nil || v.K != VSlice || !vc.confined(lv) {
+			continue
+		}
+		sl, ok := under(lv.Type()).(*types.Slice)
+		if !ok {
+			continue
+		}
+		arr := v.Arr
+		vc.leafComps(elemCompPrefix(sl.Elem()), sl.Elem(), 2, func(comp, sort string) {
+			kept = append(kept, keptRow{comp, sort, arr, vc.heapGet(st, comp, sort)})
+		})
+	}
+	sort.Slice(kept, func(i, j int) bool { return kept[i].comp+kept[i].arr < kept[j].comp+kept[j].arr })
 	defer func() {
 		for c, t := range ghost {
 			st.heap[c] = t
+		}
+		for _, k := range kept {
+			nh := vc.heapGet(st, k.comp, k.sort)
+			st.assume(fmt.Sprintf("(forall ((i!k Int)) (! (= (select %s (pr %s i!k)) (select %s (pr %s i!k))) :pattern ((select %s (pr %s i!k))) :pattern ((select %s (pr %s i!k))) :qid keptrow))", nh, k.arr, k.old, k.arr, nh, k.arr, k.old, k.arr))
 		}
 	}()
 	vc.havocAlloc(st)
@@ -1253,6 +1306,10 @@ func (vc *VC) execRange(st *State, x *ast.RangeStmt, label string) []Outcome {
 		hidx := types.NewVar(x.Pos(), vc.curPkg.P.Types, fmt.Sprintf("_idx%d", ord), types.Typ[types.Int])
 		st.env[hidx] = intV("0", types.Typ[types.Int])
 		vc.hidden[fmt.Sprintf("_idx%d", ord)] = hidx
+		// hidden name of the slice being ranged over (its value at loop entry): `_rangeN` in invariants
+		hrng := types.NewVar(x.Pos(), vc.curPkg.P.Types, fmt.Sprintf("_range%d", ord), xt)
+		st.env[hrng] = s
+		vc.hidden[fmt.Sprintf("_range%d", ord)] = hrng
 		bind := func(cs *State) {
 			k := cs.env[hidx]
 			if x.Key != nil {
